@@ -2,6 +2,7 @@
 # usage: curate.sh <name> <patch> <demo.py> <check ids...>
 # Confirms a seeded change in a scratch worktree of /repo HEAD (never touches /repo): the patch applies, the demo passes on the
 # clean tree and fails with the patch, the repository's test-suite passes with the patch, and records which checks detect it.
+# NOSUITE=1: detection pass only (the suite result of the latest full confirmation is carried by tools/mkseeded.py).
 NAME=$1; PATCH=$(readlink -f "$2"); DEMO=$(readlink -f "$3"); shift 3
 W=/tmp/cur_$NAME; O=/tmp/cur_${NAME}_out
 rm -rf $O; mkdir -p $O
@@ -11,7 +12,9 @@ cd $W
 if [ -f "$DEMO" ]; then PYTHONPATH=$W PYTHONWARNINGS=ignore timeout 300 /venv/bin/python "$DEMO" > $O/demo_clean.txt 2>&1; DC=$?; else DC=-1; fi
 if ! git apply "$PATCH" 2> $O/apply.txt; then echo "$NAME applies=no"; exit 3; fi
 if [ -f "$DEMO" ]; then PYTHONPATH=$W PYTHONWARNINGS=ignore timeout 300 /venv/bin/python "$DEMO" > $O/demo_patched.txt 2>&1; DP=$?; else DP=-1; fi
+if [ -n "$NOSUITE" ]; then SUITE="carried"; else
 SUITE=$(/venv/bin/python -m pytest -q -p no:cacheprovider --timeout=900 -n 6 2>&1 | tail -3 | grep -E "passed|failed|error" | head -1)
+fi
 DET=""
 for c in "$@"; do
   out=$(cd /verif && VF_REPO=$W VF_OUT_ROOT=$O bin/check $c --tier quick 2>/dev/null)
